@@ -202,6 +202,39 @@ def displayBounds (c : Ctx) (e : Expansion) : List Bound :=
     | none => own
   else own
 
+/-! ### Whole enums (`expand_enum` of display.rs) -/
+
+structure VariantD where
+  ident : Name
+  attrs : List CAttr
+  fields : FieldsD
+  deriving Repr, DecidableEq, Inhabited
+
+/-- The `_variant` placeholders of an enum-level literal must be bare `Display` ones. -/
+def badVariantPlaceholder (c : Ctx) (cont : Container) : Bool :=
+  match cont.fmt with
+  | some sh => (placeholdersByArg c.cc sh variantName).any fun p => p.mods || p.trait ≠ Trait.display
+  | none => false
+
+def variantExpansion (cont : Container) (va : Container) (v : VariantD) : Expansion :=
+  { shared := cont.fmt
+    attrs := { va with rename := match va.rename with | some r => some r | none => cont.rename }
+    ident := v.ident, fields := v.fields }
+
+/-- One variant of `expand_enum`: its arm body and the bounds it contributes. -/
+def displayVariant (c : Ctx) (cont : Container) (v : VariantD) : R (BodyD × List Bound) := do
+  let va ← mergeAttrs v.attrs
+  if va.fmt.isNone && v.fields.list.isEmpty && c.tr ≠ Trait.display then throw .diag
+  let e := variantExpansion cont va v
+  let b ← displayBody c e
+  pure (b, displayBounds c e)
+
+/-- `expand_enum` of display.rs. -/
+def displayEnum (c : Ctx) (attrs : List CAttr) (vs : List VariantD) : R (List (BodyD × List Bound)) := do
+  let cont ← mergeAttrs attrs
+  if badVariantPlaceholder c cont then throw .diag
+  vs.mapM (displayVariant c cont)
+
 /-! ### Debug (`debug.rs`) -/
 
 /-- One builder call of the implicit Debug body. -/
@@ -274,5 +307,30 @@ def debugBounds (cc : CharClasses) (c : Container) (fields : FieldsD) : List Bou
           | none => none
       | .skip => []
       | .none => if f.generic then [.field i .debug] else [])
+
+end Dm.FmtX
+
+namespace Dm.FmtX
+open Dm.Fmt
+
+/-- The container attributes of Debug are the common ones: `rename_all` does not parse. -/
+def dbgMerge (attrs : List CAttr) : R Container :=
+  if attrs.any (fun a => match a with | .rename _ => true | _ => false) then throw .diag
+  else mergeAttrs attrs
+
+/-- One variant of `expand_enum` of debug.rs: only literals are accepted on a variant, at most one. -/
+def debugVariant (cc : CharClasses) (cont : Container) (v : VariantD) : R (DbgBody × List Bound) := do
+  let fmts := v.attrs.filterMap fun a => match a with | .fmt f => some f | _ => none
+  if v.attrs.any (fun a => match a with | .fmt _ => false | _ => true) then throw .diag
+  if fmts.length > 1 then throw .diag
+  let vc : Container := { fmt := fmts.head?, bounds := cont.bounds }
+  dbgValidate vc.fmt v.fields
+  pure (debugBody cc vc.fmt v.ident v.fields, debugBounds cc vc v.fields)
+
+/-- `expand_enum` of debug.rs: an enum-level literal is rejected. -/
+def debugEnum (cc : CharClasses) (attrs : List CAttr) (vs : List VariantD) : R (List (DbgBody × List Bound)) := do
+  let cont ← dbgMerge attrs
+  if cont.fmt.isSome then throw .diag
+  vs.mapM (debugVariant cc cont)
 
 end Dm.FmtX
